@@ -4,7 +4,7 @@
    destination for a list of sequences (what every writer strategy must leave there: C09 / Model/Writer.v). *)
 From Coq Require Import NArith ZArith List Bool Floats.
 Import ListNotations.
-From Fit Require Export Model.Decoder.
+From Fit Require Export Model.Decoder gen.DecoderReset.
 Open Scope N_scope.
 
 (* encoder-side error classes *)
@@ -135,7 +135,11 @@ Definition validate (preserve : bool) (vs : vstate) (m : message) : outcome (mes
               else vs in
     match m_devs m with
     | [] => Ok (mkmsg (m_header m) (m_num m) fs [], vs)
-    | ds => do ds' <- validate_devs preserve vs ds []; Ok (mkmsg (m_header m) (m_num m) fs ds', vs)
+    | ds => do ds' <- validate_devs preserve vs ds [];
+            match fs, ds' with
+            | [], [] => if validator_rechecks_empty then Err E_NoFields else Ok (mkmsg (m_header m) (m_num m) fs ds', vs)
+            | _, _ => Ok (mkmsg (m_header m) (m_num m) fs ds', vs)
+            end
     end
   end.
 
@@ -197,26 +201,45 @@ Definition new_definition (big : bool) (m : message) : mdef :=
        (map (fun d => mkdd (df_num d) (wrap 8 (size (df_value d))) (df_idx d)) (m_devs m)).
 
 (* ---------------------------------------------------------------- one message *)
-Record estate := mkes { es_lru : lru; es_tsref : N; es_datasize : N; es_crc : N }.
+Record estate := mkes { es_lru : lru; es_tsref : N; es_lastts : N; es_datasize : N; es_crc : N }.
 (* WithHeaderOption clamps the local message type to 15 (normal header) / 3 (compressed timestamp header) *)
 Definition local_types (c : ecfg) : N := N.min (e_local c) (if e_compressed c then 3 else 15).
-Definition es_init (c : ecfg) : estate := mkes (lru_init (local_types c + 1)) 0 0 0.
+Definition es_init (c : ecfg) : estate := mkes (lru_init (local_types c + 1)) 0 0 0 0.
 
 Fixpoint remove_first_num (fs : list field) (num : N) : list field :=
   match fs with [] => [] | f :: r => if f_num f =? num then r else f :: remove_first_num r num end.
 Definition u32_of (v : value) : N := match v with VNum TU32 x => x | _ => 4294967295 end.
 
-(* compressTimestampIntoHeader: (header, fields, new reference) *)
-Definition compress_timestamp (tsref : N) (m : message) : option (N * list field) * N :=
-  let ts := u32_of (field_value_by_num (m_fields m) FieldNumTimestamp) in
-  if ts =? 4294967295 then (None, tsref) else
-  if ts <? DateTimeMin then (None, tsref) else
-  if CompressedTimeMask <? wrap 32 (ts + 4294967296 - tsref) then (None, ts) else
-  (Some (N.lor MesgCompressedHeaderMask (N.land ts CompressedTimeMask), remove_first_num (m_fields m) FieldNumTimestamp), tsref).
+(* compressTimestampIntoHeader: (header, fields) when compressed, new reference, new "last written timestamp".
+   When the source tracks the last written timestamp (gen/DecoderReset.v: encoder_tracks_last_timestamp) a message whose
+   timestamp field is missing or not a uint32 leaves it unchanged and a timestamp is compressed only within the 32 s
+   after it. *)
+Definition ts_field_u32 (m : message) : option N :=
+  match field_by_num (m_fields m) FieldNumTimestamp with
+  | Some f => match f_value f with VNum TU32 x => Some x | _ => None end
+  | None => None
+  end.
+Definition compress_timestamp (tsref lastts : N) (m : message) : option (N * list field) * N * N :=
+  if encoder_tracks_last_timestamp then
+    match ts_field_u32 m with
+    | None => (None, tsref, lastts)
+    | Some ts =>
+      if ts =? 4294967295 then (None, tsref, ts) else
+      if ts <? DateTimeMin then (None, tsref, ts) else
+      if CompressedTimeMask <? wrap 32 (ts + 4294967296 - tsref) then (None, ts, ts) else
+      if CompressedTimeMask <? wrap 32 (ts + 4294967296 - lastts) then (None, tsref, ts) else
+      (Some (N.lor MesgCompressedHeaderMask (N.land ts CompressedTimeMask), remove_first_num (m_fields m) FieldNumTimestamp), tsref, ts)
+    end
+  else
+    let ts := u32_of (field_value_by_num (m_fields m) FieldNumTimestamp) in
+    if ts =? 4294967295 then (None, tsref, lastts) else
+    if ts <? DateTimeMin then (None, tsref, lastts) else
+    if CompressedTimeMask <? wrap 32 (ts + 4294967296 - tsref) then (None, ts, lastts) else
+    (Some (N.lor MesgCompressedHeaderMask (N.land ts CompressedTimeMask), remove_first_num (m_fields m) FieldNumTimestamp), tsref, lastts).
 
 (* encodeMessage: bytes written (definition if new, then the message) *)
 Definition encode_message (c : ecfg) (st : estate) (m : message) : outcome (bytes * estate) :=
-  let '(cmp, tsref) := if e_compressed c then compress_timestamp (es_tsref st) m else (None, es_tsref st) in
+  let '(cmp, tsref, lastts) := if e_compressed c then compress_timestamp (es_tsref st) (es_lastts st) m else (None, es_tsref st, es_lastts st) in
   let '(hdr, fs, compressed) := match cmp with Some (h, fs) => (h, fs, true) | None => (MesgNormalHeaderMask, m_fields m, false) end in
   let m := mkmsg hdr (m_num m) fs (m_devs m) in
   let d := new_definition (e_big c) m in
@@ -229,7 +252,7 @@ Definition encode_message (c : ecfg) (st : estate) (m : message) : outcome (byte
   | None => Err E_Marshal
   | Some mb =>
       let out := defbytes ++ mb in
-      Ok (out, mkes lru' tsref (wrap 32 (es_datasize st + len out)) (write (es_crc st) out))
+      Ok (out, mkes lru' tsref lastts (wrap 32 (es_datasize st + len out)) (write (es_crc st) out))
   end.
 
 Fixpoint encode_messages (c : ecfg) (st : estate) (ms : list message) (acc : bytes) : outcome (bytes * estate) :=
